@@ -243,6 +243,14 @@ Definition step (s : mstate) : mres :=
             else MErr EOob (ms_out s)
         | _ :: _ :: _ => MErr EType (ms_out s)
         | _ => MErr EStack (ms_out s) end
+      else if N.eqb o OP_ARR_LITERAL then
+        (* operands: element tag, count; the count topmost values become the array, oldest first *)
+        match args i with
+        | [_; cnt] =>
+            let c := N.to_nat cnt in
+            if Nat.ltb (length st) c then MErr EStack (ms_out s)
+            else MNext (with_stack s1 (MArr (rev (firstn c st)) :: skipn c st))
+        | _ => MErr EDecode (ms_out s) end
       else MErr EUnsupported (ms_out s)
     end
   end.
